@@ -17,12 +17,19 @@ func (e *Engine) ifaceFacts(iface, method string, args []Val, res []Val, reach s
 	}
 	if e.fc != nil && len(res) >= 2 {
 		for _, suffix := range e.fc.TrustNonNil {
-			if !strings.HasSuffix(iface, suffix) {
+			// pkg.Iface.Method (one method) or pkg.Iface.* (every method: only for interfaces whose methods report
+			// "not found" as an error, never as a nil result with a nil error)
+			i := strings.LastIndex(suffix, ".")
+			if i < 0 || !strings.HasSuffix(iface, suffix[:i]) || (suffix[i+1:] != "*" && suffix[i+1:] != method) {
 				continue
 			}
 			for _, r := range res[:len(res)-1] {
 				if pv, ok := r.(PtrV); ok {
 					e.fact(imp(and(reach, errNil(len(res)-1)), not(pv.Nil)))
+					e.trustedUsed[suffix+": a method that returns a nil error returns non-nil pointer results"] = true
+				}
+				if ov, ok := r.(OptV); ok && ov.Nil != "true" && ov.Nil != "false" {
+					e.fact(imp(and(reach, errNil(len(res)-1)), not(ov.Nil)))
 					e.trustedUsed[suffix+": a method that returns a nil error returns non-nil pointer results"] = true
 				}
 			}
